@@ -85,4 +85,151 @@ theorem mapM_lines {α β γ : Type} (line : α → Option β) (read : β → Op
         simp only [Option.bind_some] at ih
         simp [List.mapM_cons, hp, ih]
 
+theorem mapM_some_mem {α β : Type} (f : α → Option β) : ∀ (data : List α) (ls : List β),
+    data.mapM f = some ls → ∀ l ∈ ls, ∃ p ∈ data, f p = some l
+  | [], ls, h, l, hl => by simp at h; subst h; simp at hl
+  | p :: ps, ls, h, l, hl => by
+    simp only [List.mapM_cons, Option.bind_eq_bind, Option.pure_def] at h
+    cases hp : f p with
+    | none => simp [hp] at h
+    | some b =>
+      cases hps : ps.mapM f with
+      | none => simp [hp, hps] at h
+      | some bs =>
+        simp [hp, hps] at h
+        subst h
+        rcases List.mem_cons.mp hl with rfl | hl
+        · exact ⟨p, by simp, hp⟩
+        · obtain ⟨q, hq, hfq⟩ := mapM_some_mem f ps bs hps l hl
+          exact ⟨q, by simp [hq], hfq⟩
+
+/-! ## exported lines contain no newline -/
+
+theorem mem_escStr (q : Quoting) : ∀ (v : Str) (ch : Char), ch ∈ escStr q v → ch ∈ v ∨ ch = '\\' ∨ ch = '"'
+  | [], ch, h => by simp [escStr_nil] at h
+  | x :: v, ch, h => by
+    rw [escStr_cons, List.mem_append] at h
+    rcases h with h | h
+    · cases q with
+      | backslash =>
+        simp only [escChar] at h
+        split at h
+        · simp at h; rcases h with h | h <;> simp [h]
+        · split at h
+          · simp at h; rcases h with h | h <;> simp [h]
+          · simp at h; simp [h]
+      | doubled =>
+        simp only [escChar] at h
+        split at h
+        · simp at h; simp [h]
+        · simp at h; simp [h]
+    · rcases mem_escStr q v ch h with h | h
+      · exact Or.inl (by simp [h])
+      · exact Or.inr h
+
+mutual
+/-- no string leaf contains a newline -/
+def NoNL : Val → Prop
+  | .leaf (.s v) => ∀ ch ∈ v, ch ≠ '\n'
+  | .leaf _ => True
+  | .arr vs => NoNLs vs
+def NoNLs : List Val → Prop
+  | [] => True
+  | v :: vs => NoNL v ∧ NoNLs vs
+end
+
+theorem floatChar_ne_nl (ch : Char) (h : floatChar ch = true) : ch ≠ '\n' := by
+  intro e; subst e; revert h; decide
+
+theorem printScalar_noNL (st : Style) (hT : ∀ ch ∈ st.tru, ch ≠ '\n') (hF : ∀ ch ∈ st.fls, ch ≠ '\n')
+    (k : Kind) (s : Scalar) (hk : ScalarOK k s) (hn : NoNL (.leaf s)) : ∀ ch ∈ printScalar st s, ch ≠ '\n' := by
+  intro ch hch
+  cases s with
+  | b v => cases v <;> simp [printScalar] at hch <;> first | exact hT ch hch | exact hF ch hch
+  | i v => exact floatChar_ne_nl ch (showInt_floatChars v ch hch)
+  | f t => exact floatChar_ne_nl ch (List.all_eq_true.mp hk.2.2 ch hch)
+  | s v =>
+    simp only [printScalar, quoteStr, List.mem_cons, List.mem_append, List.mem_nil_iff, or_false] at hch
+    rcases hch with rfl | hch | rfl
+    · decide
+    · rcases mem_escStr st.q v ch hch with h | rfl | rfl
+      · exact hn ch h
+      · decide
+      · decide
+    · decide
+
+mutual
+theorem printVal_noNL (st : Style) (hT : ∀ ch ∈ st.tru, ch ≠ '\n') (hF : ∀ ch ∈ st.fls, ch ≠ '\n')
+    (hO : ∀ ch ∈ st.opn, ch ≠ '\n') (hC : ∀ ch ∈ st.cls, ch ≠ '\n') (k : Kind) :
+    (v : Val) → ValOK k v → NoNL v → ∀ ch ∈ printVal st v, ch ≠ '\n'
+  | .leaf s, hv, hn => by
+    simp only [printVal]
+    exact printScalar_noNL st hT hF k s (by simpa [ValOK] using hv) hn
+  | .arr vs, hv, hn => by
+    intro ch hch
+    simp only [printVal, List.mem_append] at hch
+    rcases hch with (hch | hch) | hch
+    · exact hO ch hch
+    · exact printVals_noNL st hT hF hO hC k vs (by simpa [ValOK] using hv) (by simpa [NoNL] using hn) ch hch
+    · exact hC ch hch
+theorem printVals_noNL (st : Style) (hT : ∀ ch ∈ st.tru, ch ≠ '\n') (hF : ∀ ch ∈ st.fls, ch ≠ '\n')
+    (hO : ∀ ch ∈ st.opn, ch ≠ '\n') (hC : ∀ ch ∈ st.cls, ch ≠ '\n') (k : Kind) :
+    (vs : List Val) → ValsOK k vs → NoNLs vs → ∀ ch ∈ printVals st vs, ch ≠ '\n'
+  | [], _, _ => by simp [printVals]
+  | [v], hv, hn => by
+    simp only [printVals]
+    exact printVal_noNL st hT hF hO hC k v hv.1 hn.1
+  | v :: w :: vs, hv, hn => by
+    intro ch hch
+    simp only [printVals, List.mem_append, List.mem_cons, List.mem_nil_iff, or_false] at hch
+    rcases hch with (hch | rfl | rfl) | hch
+    · exact printVal_noNL st hT hF hO hC k v hv.1 hn.1 ch hch
+    · decide
+    · decide
+    · exact printVals_noNL st hT hF hO hC k (w :: vs) hv.2 hn.2 ch hch
+end
+
+theorem showNat_ne_nl (n : Nat) : ∀ ch ∈ showNat n, ch ≠ '\n' :=
+  fun ch h => floatChar_ne_nl ch (showNat_floatChars n ch h)
+
+theorem rust_names_noNL : ∀ t ∈ targets bRust, t.all (fun c => c ≠ '\n') = true := by decide +kernel
+
+theorem lineRust_noNL (ren : Bool) (p : Param) (l : Str) (h : lineRust ren p = some l)
+    (hn : ∀ ch ∈ rename ren p.name, ch ≠ '\n') (hv : ValOK p.kind p.value) (hnl : NoNL p.value) :
+    (∀ ch ∈ l, ch ≠ '\n') ∧ l ≠ [] := by
+  unfold lineRust at h
+  cases ht : lookupType bRust p.kind p.bits with
+  | none => simp [ht] at h
+  | some dtype =>
+    cases hs : shapeOf p.value with
+    | none => simp [ht, hs] at h
+    | some sh =>
+      simp [ht, hs] at h
+      subst h
+      obtain ⟨n, _, hmem⟩ := targetKind_of_lookup bRust (by simp) p.kind p.bits dtype ht
+      have hd := List.all_eq_true.mp (rust_names_noNL dtype hmem)
+      have hval := printVal_noNL styleRust (by decide) (by decide) (by decide) (by decide) p.kind p.value hv hnl
+      refine ⟨?_, by simp⟩
+      intro ch hch
+      rw [rustType_eq] at hch
+      simp only [List.mem_append, List.mem_cons, List.mem_nil_iff, or_false, List.mem_replicate,
+        List.mem_flatMap, List.mem_reverse] at hch
+      rcases hch with (((((hch | hch) | hch | hch) | hch) | hch) | hch) | hch
+      all_goals first
+        | (rcases hch with rfl | rfl | rfl | rfl | rfl | rfl | rfl | rfl | rfl | rfl <;> decide)
+        | exact hn ch hch
+        | (rcases hch with rfl | rfl <;> decide)
+        | (obtain ⟨_, rfl⟩ := hch; decide)
+        | (rcases hch with hch | ⟨d, _, hch⟩
+           · have := hd ch hch; simpa using this
+           · simp only [rseg, List.mem_cons, List.mem_append, List.mem_nil_iff, or_false] at hch
+             rcases hch with rfl | rfl | hch | rfl
+             · decide
+             · decide
+             · exact showNat_ne_nl d ch hch
+             · decide)
+        | (rcases hch with rfl | rfl | rfl <;> decide)
+        | exact hval ch hch
+        | (subst hch; decide)
+
 end SciVerif.C19
